@@ -21,10 +21,11 @@ type SEnv struct {
 	qn     *int
 	funs   map[string]FunDecl // witness functions: spec name -> declared symbol (Name = SMT symbol)
 	bound  map[string]bool    // quantified variables in scope (they shadow program variables)
+	atInstr ssa.Instruction   // program point of an assert hint (values defined earlier in the same block are visible)
 }
 
 func (env *SEnv) with(name string, v Val) *SEnv {
-	n := &SEnv{vars: map[string]Val{}, act: env.act, header: env.header, pkg: env.pkg, nowOld: env.nowOld, qn: env.qn, funs: env.funs, bound: map[string]bool{}}
+	n := &SEnv{vars: map[string]Val{}, act: env.act, header: env.header, pkg: env.pkg, nowOld: env.nowOld, qn: env.qn, funs: env.funs, bound: map[string]bool{}, atInstr: env.atInstr}
 	for k, x := range env.vars {
 		n.vars[k] = x
 	}
@@ -249,7 +250,10 @@ func (fx *FX) specVal(x *SX, env *SEnv, cur, old *State) Val {
 		}
 		if env.act != nil && env.header != nil {
 			// inside a loop invariant a (possibly reassigned) parameter denotes its current value
-			if v, ok := env.act.localVar(x.Name, env.header, cur); ok {
+			env.act.hintPoint = env.atInstr
+			v, ok := env.act.localVar(x.Name, env.header, cur)
+			env.act.hintPoint = nil
+			if ok {
 				return v
 			}
 		}
@@ -392,7 +396,12 @@ func (fx *FX) specVal(x *SX, env *SEnv, cur, old *State) Val {
 		if x.A[2] != nil {
 			hi = fx.specVal(x.A[2], env, cur, old).T
 		}
-		return Val{T: fmt.Sprintf("(mk-slice (sbase %s) (+ (soff %s) %s) (- %s %s))", base.T, base.T, lo, hi, lo), S: SSlice, GT: base.GT}
+		st := fmt.Sprintf("(mk-slice (sbase %s) (+ (soff %s) %s) (- %s %s))", base.T, base.T, lo, hi, lo)
+		if !strings.Contains(st, "!q") {
+			// index translation between the sub-slice and its parent (gives E-matching the parent's index term)
+			fx.ctx.Assert(fmt.Sprintf("(forall ((i Int)) (! (= (sidx %s i) (sidx %s (+ %s i))) :pattern ((sidx %s i))))", st, base.T, lo, st))
+		}
+		return Val{T: st, S: SSlice, GT: base.GT}
 	case "call":
 		return fx.specCall(x, env, cur, old)
 	}
@@ -952,7 +961,7 @@ func (a *act) localVar(name string, header *ssa.BasicBlock, st *State) (Val, boo
 				continue
 			}
 			if c.blk == header {
-				if _, isPhi := c.v.(*ssa.Phi); !isPhi {
+				if _, isPhi := c.v.(*ssa.Phi); !isPhi && a.hintPoint == nil {
 					continue
 				}
 			}
